@@ -25,6 +25,8 @@ def check(repo, col, tier):
     cable.check_point_process(repo, col, "R-C15-units")
     _channel_factor(repo, col)
     _capacitance(repo, col)
+    from . import c10
+    c10.derived_after_overrides(repo, col, "R-C15-units")
 
 
 def _channel_factor(repo, col):
